@@ -53,7 +53,7 @@ def main():
         'str::parse::<i64> modelled exactly (sign, digits) on bounded strings; str::parse::<f64> is an uninterpreted total function of the string',
         'f64::round = roundTiesToAway; `as` casts = saturating with NaN -> 0 (Rust reference semantics)',
         'to_string of numbers: injective uninterpreted rendering (nothing claimed about digits); bool: "true"/"false"',
-        'int(float) outside the i64 range / NaN, and anything compared across numeric kinds, is only required to be sound (True => relation)',
+        'int(float) outside the i64 range is only required to be sound (True => the relation holds for the float itself, which lies beyond every i64); int(NaN) is never true; anything compared across numeric kinds is only required to be sound',
         'two-field comparisons: missing is required when the left field is absent, or the left converts and the right is absent',
         'tracing disabled',
     ]
@@ -158,6 +158,16 @@ def int_of_cast(c, cell):
                       z3.If(k == K_UINT, cell.u,
                             z3.If(k == K_FLOAT, round_cast(cell.f), pi[1]))))
     return spec, val, unspecified
+
+
+def int65_of_cast(cell, val):
+    """the mathematical position of int(field) on a 65-bit line: a float at or above 2^63 (or +inf) lies above every i64,
+    one below -2^63 (or -inf) below every i64; a NaN lies nowhere (second result)"""
+    k = cell.kind
+    hi = z3.And(k == K_FLOAT, z3.fpGEQ(cell.f, I64_LIM_F))
+    lo = z3.And(k == K_FLOAT, z3.fpLT(cell.f, I64_MIN_F))
+    v65 = z3.If(hi, z3.BitVecVal(2 ** 63, 65), z3.If(lo, z3.BitVecVal(-(2 ** 63) - 1, 65), sext(val)))
+    return v65, z3.And(k == K_FLOAT, z3.fpIsNaN(cell.f))
 
 
 def flt_of_cast(c, cell):
@@ -465,6 +475,13 @@ def run_unit(ck, unit):
         rel = rel_bv65(op, sext(val_i), sext(n)) if order == 'lr' else rel_bv65(op, sext(n), sext(val_i))
         check_form(ck, c, 'int(f) %s Integer (%s)' % (op, order), res, pc, panics, pf, spec_i, rel,
                    never_true_when=z3.And(z3.Not(spec_i), z3.Not(unspec_i)), witness=('CastInt', op, 'Integer', order))
+        # outside the i64 range the cast has no value; whatever the engine does there, `true` must still mean that the
+        # stated relation holds between the field's number and the constant
+        v65, nan = int65_of_cast(cf, val_i)
+        rel65 = rel_bv65(op, v65, sext(n)) if order == 'lr' else rel_bv65(op, sext(n), v65)
+        nm = 'int(f) %s Integer (%s):true only when the relation holds (float beyond the i64 range / NaN)' % (op, order)
+        ck.obligation(nm, uni, z3.And(pf, unspec_i, res == T, z3.Or(nan, z3.Not(rel65))),
+                      on_sat=lambda m: confirm(ck, nm, 'true although the relation does not hold', m, d, ('CastInt', op, 'Integer', order), None))
         return
     if kind == 'cast-flt-const':
         op, order = unit[1], unit[2]
@@ -486,7 +503,7 @@ def run_unit(ck, unit):
                    rel_bv65(op, sext(val_i), sext(val_ig)),
                    never_true_when=z3.Or(z3.And(z3.Not(spec_i), z3.Not(unspec_i)), z3.And(z3.Not(spec_ig), z3.Not(unspec_ig))),
                    witness=('CastInt', op, 'CastInt', 'lr'),
-                   absent_missing=z3.Or(z3.Not(pf), z3.And(pf, z3.Or(spec_i, unspec_i), z3.Not(pg))))
+                   absent_missing=z3.Or(z3.Not(pf), z3.And(pf, spec_i, z3.Not(pg))))
         return
     if kind == 'cast-flt-flt':
         op = unit[1]
@@ -605,7 +622,21 @@ def native_broken(ops, native, fval, n, yv, rk):
         x = struct.unpack('<d', struct.pack('<Q', fval['$f64']))[0]
         want = {'Equal': x == yv, 'GreaterThan': x > yv, 'GreaterThanOrEqual': x >= yv, 'LessThan': x < yv, 'LessThanOrEqual': x <= yv}
         return any(native[o]['verdict'] != want[o] for o in ops)
-    # casts / other kinds: trust the solver-side oracle; the native run only has to reproduce the engine's verdicts
+    if isinstance(fval, dict) and '$f64' in fval and rk == 'Integer':
+        # int(float) against an integer constant, decided exactly with python integers
+        import struct, math
+        x = struct.unpack('<d', struct.pack('<Q', fval['$f64']))[0]
+        if x != x:
+            return any(r['verdict'] for r in native.values())
+        if x in (float('inf'), float('-inf')):
+            pos = 2 ** 64 if x > 0 else -2 ** 64
+        else:
+            pos = int(math.floor(abs(x) + 0.5)) * (1 if x >= 0 else -1)      # round half away from zero, exact on big ints
+        want = {'Equal': pos == n, 'GreaterThan': pos > n, 'GreaterThanOrEqual': pos >= n, 'LessThan': pos < n, 'LessThanOrEqual': pos <= n}
+        if -2 ** 63 <= pos < 2 ** 63:
+            return any(native[o]['verdict'] != want[o] for o in ops)
+        return any(native[o]['verdict'] and not want[o] for o in ops)        # beyond the i64 range: soundness only
+    # other casts / kinds: trust the solver-side oracle; the native run only has to reproduce the engine's verdicts
     return True
 
 
